@@ -255,7 +255,75 @@ def evaluate_pairs(case):
     return V, classes, nev
 
 
+FAILURES = ['open-badmode', 'iterchunks-badlen', 'datafile-missing', 'bad-index', 'bad-value-shape', 'context-body-raises']
+
+
+def evaluate_failed(case):
+    """A failed operation, then ordinary use of the same handle: nothing may stay open, later reads are current."""
+    darr = import_darr()
+    shape, dtype = tuple(case['shape']), case['dtype']
+    ref = make_ref(shape, dtype)
+    path = 'f.darr'
+    V, classes, nev = [], set(), 0
+    for failure in FAILURES:
+        for repeat in (1, 2):
+            rmtree(path)
+            a = darr.asarray(path, ref, accessmode='r+')
+            data = os.path.join(path, 'arrayvalues.bin')
+
+            def fail():
+                if failure == 'open-badmode':
+                    with a.open_array(accessmode='w'):
+                        pass
+                elif failure == 'iterchunks-badlen':
+                    list(a.iterchunks(chunklen=0))
+                elif failure == 'datafile-missing':
+                    os.rename(data, data + '.away')
+                    try:
+                        a[0]
+                    finally:
+                        os.rename(data + '.away', data)
+                elif failure == 'bad-index':
+                    a['x']
+                elif failure == 'bad-value-shape':
+                    a[:] = np.zeros((shape[0] + 3,) + shape[1:])
+                elif failure == 'context-body-raises':
+                    with a.open_array():
+                        a[0]
+                        raise KeyError('user code fails inside the context')
+            nev += 1
+            outs = [outcome_of(fail)[0] for _ in range(repeat)]
+            msg = None
+            if 'returns' in outs:
+                msg = 'the faulty operation did not raise'
+            elif snapshot.open_handles_on(path):
+                msg = f'left open after the failed operation: {snapshot.open_handles_on(path)}'
+            else:
+                w, v = outcome_of(lambda: a[0])
+                if w == 'raises' or not same(v, ref[0]):
+                    msg = f'a[0] after the failure: {v!r:.60}'
+                elif snapshot.open_handles_on(path):
+                    msg = f'left open after a read that followed the failure: {snapshot.open_handles_on(path)}'
+                else:
+                    extra = ref[:1]
+                    w, v = outcome_of(lambda: (a.append(extra), a[:])[1])
+                    want = np.concatenate([ref, extra]).astype(ref.dtype)
+                    if w == 'raises' or not same(v, want):
+                        msg = f'append + read after the failure does not show the current contents: {v!r:.60}'
+                    elif snapshot.open_handles_on(path):
+                        msg = 'descriptor or map left open after append + read'
+            if msg:
+                V.append(viol('index', 'after-failure', failure, 'handle unusable or leaking after a failed operation',
+                              f'{failure} (x{repeat}) on shape {shape}: {msg}'))
+            else:
+                classes.add(('after-failure', failure, repeat))
+    rmtree(path)
+    return V, classes, nev
+
+
 def evaluate_any(case):
+    if case['kind'] == 'failed':
+        return evaluate_failed(case)
     return evaluate_pairs(case) if case['kind'] == 'pairs' else evaluate(case)
 
 
@@ -274,6 +342,7 @@ def run(tier):
                     cases.append({'shape': list(sh), 'dtype': dt, 'kind': kind, 'part': part})
     for sh, dt in (((3,), '<f8'), ((3, 2), '>i2')):
         cases.append({'shape': list(sh), 'dtype': dt, 'kind': 'pairs', 'part': 0})
+        cases.append({'shape': list(sh), 'dtype': dt, 'kind': 'failed', 'part': 0})
     return run_enum(
         'C12', tier, 'dv.checks.c12:evaluate_any', cases, chunk=1,
         rule=('for each array shape (rank 1-4, extents <= 3, incl. a length-0 first axis and length-1 axes) every index tuple '
@@ -283,7 +352,9 @@ def run(tier):
               'dtype, shape or same exception class), detachedness, survival of overwrite+truncate+delete; writes of a scalar, '
               'a broadcastable row, an array of another dtype and a wrong shape compared on the live handle, a fresh handle '
               'and the raw file; each inside and outside open_array(); no descriptor/map/cache left after any call; all '
-              'read/write pairs on overlapping indices; class = (outcome kind, result rank, emptiness, tuple length)'),
+              'read/write pairs on overlapping indices; six kinds of failed operation (invalid open mode, invalid chunk length, '
+              'data file temporarily missing, bad index, bad value shape, exception inside a context), once and twice, followed by a '
+              'read and an append + read on the same handle; class = (outcome kind, result rank, emptiness, tuple length)'),
         assumptions=['NumPy ndarray indexing as reference', 'extents <= 3 (index semantics depend on an extent only through '
                      'in-range / boundary / out-of-range)'])
 
